@@ -324,7 +324,9 @@ def defer():
                 ts = _delay(p).total_seconds()
 
                 if ts <= 300.0:
-                    que.append(t)
+                    # several events of one task may be due together
+                    if t not in que:
+                        que.append(t)
                     que.sort(key=lambda i: i.get('level'))
                     t.set('status', State.waiting)
                     t.set('event', 'Periodic timer')
